@@ -2567,7 +2567,11 @@ class DiskObjectStore(PackBasedObjectStore):
             # Look for MIDX in pack directory
             midx_file = os.path.join(self.pack_dir, "multi-pack-index")
             if os.path.exists(midx_file):
-                self._midx = load_midx(midx_file)
+                try:
+                    self._midx = load_midx(midx_file)
+                except FileNotFoundError:
+                    # removed by a concurrent repack since the check
+                    pass
         return self._midx
 
     def _get_pack_by_name(self, pack_name: str) -> Pack:
